@@ -92,6 +92,7 @@ func c22cases(thorough bool) []c22case {
 // c22server is one scripted server for a (policy, mode, key size); the variant
 // is switched between cases.
 type c22server struct {
+	srv      *server.Server
 	url      string
 	stop     func()
 	mu       sync.Mutex
@@ -239,10 +240,13 @@ func newC22Server(p polSpec, mode ua.MessageSecurityMode, bits int) *c22server {
 		nonce := make([]byte, 32)
 		rand.Read(nonce)
 		s.nonce = nonce
+		// the session services are replaced: make the session known to the real server, whose dispatcher
+		// only lets requests of an activated session through to the other services
+		srv.VerifAdoptSession(req.RequestHeader.AuthenticationToken, sc)
 		return &ua.ActivateSessionResponse{ResponseHeader: hdr(req.RequestHeader), ServerNonce: nonce}, nil
 	}
 	var err error
-	_, cs.url, cs.stop, err = startServer(opts, func(s *server.Server) {
+	cs.srv, cs.url, cs.stop, err = startServer(opts, func(s *server.Server) {
 		srv = s
 		s.RegisterHandler(id.CreateSessionRequest_Encoding_DefaultBinary, createSession)
 		s.RegisterHandler(id.ActivateSessionRequest_Encoding_DefaultBinary, activateSession)
@@ -269,9 +273,9 @@ func c22run(cs *c22server, c c22case) (res c22result, engineErr string) {
 	cs.set(c.Variant)
 	ctx, cancel := context.WithTimeout(context.Background(), watchdog)
 	defer cancel()
-	eps, err := opcua.GetEndpoints(ctx, cs.url)
-	if err != nil {
-		return res, "GetEndpoints: " + err.Error()
+	eps := advertised(cs.srv, cs.url) // see c37.go: no discovery over an unsecured channel unless it is enabled
+	if len(eps) == 0 {
+		return res, "GetEndpoints: the server advertises no endpoint for " + cs.url
 	}
 	ep, err := opcua.SelectEndpoint(eps, p.URI, mode)
 	if err != nil {
